@@ -48,6 +48,8 @@ type World struct {
 	siteCache []*siteInfo
 	recording, mayRecord map[*ssa.Function]bool
 	advancing map[*ssa.Function]bool
+	mustAdv     map[*ssa.Function]bool
+	mustAdvLeak map[*ssa.Function]*ssa.BasicBlock
 }
 
 func corePkg(path string) bool {
